@@ -152,6 +152,10 @@ def main(argv):
     ap.add_argument("--replay", default=None)
     a = ap.parse_args(argv)
     pid, tier = a.pid, a.tier
+    # one generation directory per property: checks may run concurrently
+    if "VERIF_GEN" not in os.environ:
+        pl.GEN = os.path.join(VERIF, "gen", pid)
+    os.makedirs(pl.GEN, exist_ok=True)
     if a.replay:
         print(open(a.replay).read())
         return 0
